@@ -67,6 +67,7 @@ structure Section where
   formats : List Str
   rtpmaps : List Str         -- values of the `a=rtpmap` attributes, in order
   extmaps : List Str         -- values of the `a=extmap` attributes, in order
+  setup : Option Str := none -- value of the first `a=setup:<v>` attribute of the section
   addr4 : Bool := false      -- the section (or session) `c=` line is `IN IP4 <parsable address>`
                              -- (test in the section loop of `set_remote_description`)
   addrAny : Bool := false    -- `remote_rtp_addr_from_section(..).is_some()` (IP4 or IP6)
@@ -110,6 +111,7 @@ structure Pc where
   nextMid : Nat              -- `AtomicU16`
   dtlsStarted : Bool         -- `dtls_transport.is_some()`
   remoteFp : Option Nat      -- `remote_dtls_fingerprint`
+  dtlsRole : Option Bool := none  -- `dtls_role` (`Some(is_client)`), cached by the first remote description
   bindFails : Bool := false  -- ENVIRONMENT: every UDP socket bind fails (unusable `bind_ip`,
                              -- exhausted port range / descriptors); constant during a run
 deriving DecidableEq, Repr
@@ -141,10 +143,10 @@ def insertExt (e : Nat × Str) : List (Nat × Str) → List (Nat × Str)
 
 /-- `iana_static_rtp_params` -/
 def ianaStatic (pt : Nat) : Option Codec :=
-  if pt = ianaPtPcmu then some ⟨ianaPtPcmu, "PCMU".toList, ianaClockG729, 1⟩
-  else if pt = ianaPtPcma then some ⟨ianaPtPcma, "PCMA".toList, ianaClockG729, 1⟩
-  else if pt = ianaPtG722 then some ⟨ianaPtG722, "G722".toList, ianaClockG729, 1⟩
-  else if pt = ianaPtG729 then some ⟨ianaPtG729, "G729".toList, ianaClockG729, 1⟩
+  if pt = ianaPtPcmu then some ⟨ianaPtPcmu, "PCMU".toList, ianaClockPcmu, ianaChannelsPcmu⟩
+  else if pt = ianaPtPcma then some ⟨ianaPtPcma, "PCMA".toList, ianaClockPcma, ianaChannelsPcma⟩
+  else if pt = ianaPtG722 then some ⟨ianaPtG722, "G722".toList, ianaClockG722, ianaChannelsG722⟩
+  else if pt = ianaPtG729 then some ⟨ianaPtG729, "G729".toList, ianaClockG729, ianaChannelsG729⟩
   else none
 
 /-- one `a=rtpmap:<value>`: `"96 opus/48000/2"` -/
@@ -326,13 +328,12 @@ def reinvitePhase (pc : Pc) (d : Desc) (changed : Bool) : Pc × Option Err :=
     | _, _ => (pc, none)
   else (pc, none)
 
-/-- `next_mid.fetch_max(mid_val + 1)` for every section whose mid parses as `u16`
-(`mid_val + 1` overflows for 65535 — C07's subject; the release-mode wrap is written here). -/
+/-- `next_mid.fetch_max(mid_val.saturating_add(1))` for every section whose mid parses as `u16` -/
 def bumpNextMid (n : Nat) : List Section → Nat
   | [] => n
   | s :: rest =>
     match parseU16 s.mid with
-    | some v => bumpNextMid (Nat.max n ((v + 1) % 65536)) rest
+    | some v => bumpNextMid (Nat.max n (Nat.min (v + 1) 65535)) rest
     | none => bumpNextMid n rest
 
 def remoteTransition (s : SigState) : SdpType → Except Err SigState
@@ -393,16 +394,47 @@ def rtpConfigureBinds (ts : List Trx) (d : Desc) : Bool :=
     | none => false
   else matched.any (fun p => p.2.addrAny)
 
+/-- `is_client` from the value of an `a=setup` attribute -/
+def roleOfSetup (v : Str) : Bool :=
+  if v = "active".toList then false
+  else if v = "passive".toList then true
+  else if v = "actpass".toList then false
+  else true
+
+/-- the `dtls_role` block: the role is derived once, from the first description that gets this far -/
+def deriveRole (pc : Pc) (d : Desc) : Option Bool :=
+  match pc.dtlsRole with
+  | some r => some r
+  | none =>
+    if pc.mode = .rtp || pc.mode = .srtp then some true
+    else (d.sections.findSome? (·.setup)).map roleOfSetup
+
 /-- Rest of `set_remote_description` after the fingerprint has been cached: start the transport
 (SDES-SRTP: `start_direct`), apply the sections to the transceivers, store the description,
-configure the RTP media transports (RTP mode). The two transport steps are where a failing socket
-layer surfaces — after the state transition, and for RTP mode after everything was applied. -/
-def remoteTail (pc4 : Pc) (d : Desc) : Pc × Res :=
+configure the RTP media transports (RTP mode), and only then move the signaling state to `s'`
+(since the round-2 `fix:` commit). The two transport steps are where a failing socket layer
+surfaces — for RTP mode after everything but the state was applied. -/
+def remoteTail (pc4 : Pc) (d : Desc) (s' : SigState) : Pc × Res :=
   if pc4.bindFails && pc4.mode = .srtp && d.sections.any (·.addr4) then (pc4, .err .internal) else
   let pc5 := applyRemote pc4 d
   let pc6 := { pc5 with rem := some d }
   if pc6.bindFails && pc6.mode = .rtp && rtpConfigureBinds pc6.trxs d then (pc6, .err .internal) else
-  (pc6, .ok)
+  ({ pc6 with sig := s' }, .ok)
+
+/-- `set_remote_description` from the state check on (`pc1` = the connection after the re-INVITE block,
+`unchanged` = "a remote description exists and the media parameters did not change") -/
+def remoteAfterReinvite (pc1 : Pc) (d : Desc) (fp : Option Nat) (unchanged : Bool) : Pc × Res :=
+  -- the state CHECK; the transition to `s'` is made at the very end
+  match remoteTransition pc1.sig d.ty with
+  | .error e => (pc1, .err e)
+  | .ok s' =>
+  -- the mid counter moves only for a description that passed the check (round-2 `fix:`)
+  let pc2 := { pc1 with nextMid := bumpNextMid pc1.nextMid d.sections }
+  if unchanged then ({ pc2 with sig := s', rem := some d }, .ok) else
+  let pc3 := { pc2 with dtlsRole := deriveRole pc2 d }
+  -- the original (late) fingerprint check is still in the code
+  if fpChanged pc3 fp then (pc3, .err .invalidState) else
+  remoteTail { pc3 with remoteFp := fp } d s'
 
 def setRemote (pc : Pc) (d : Desc) : Pc × Res :=
   match validateType d.ty with
@@ -411,22 +443,12 @@ def setRemote (pc : Pc) (d : Desc) : Pc × Res :=
   match remoteFingerprint pc.mode d.fp with
   | .error e => (pc, .err e)
   | .ok fp =>
-  -- since the `fix:` commit: a changed fingerprint after transport start is refused before
-  -- anything is applied
+  -- a changed fingerprint after transport start is refused before anything is applied
   if fpChanged pc fp then (pc, .err .invalidState) else
   let changed := mediaChanged pc d
   match reinvitePhase pc d changed with
   | (pc1, some e) => (pc1, .err e)
-  | (pc1, none) =>
-  let pc2 := { pc1 with nextMid := bumpNextMid pc1.nextMid d.sections }
-  match remoteTransition pc2.sig d.ty with
-  | .error e => (pc2, .err e)
-  | .ok s' =>
-  let pc3 := { pc2 with sig := s' }
-  if pc.rem.isSome && !changed then ({ pc3 with rem := some d }, .ok) else
-  -- the original (late) check is still in the code
-  if fpChanged pc3 fp then (pc3, .err .invalidState) else
-  remoteTail { pc3 with remoteFp := fp } d
+  | (pc1, none) => remoteAfterReinvite pc1 d fp (pc.rem.isSome && !changed)
 
 /-! ### `create_offer` / `create_answer` (effects on the connection) -/
 
@@ -442,18 +464,20 @@ def ensureMid (st : List Trx × Nat) (i : Nat) : List Trx × Nat :=
 def createOffer (pc : Pc) : Pc × Res :=
   if pc.sig ≠ .stable then (pc, .err .invalidState)
   else if pc.trxs.isEmpty then (pc, .err .invalidState)
+  -- RTP mode binds the primary socket BEFORE any mid is assigned (round-2 `fix:`)
+  else if pc.bindFails && pc.mode = .rtp then (pc, .err .internal)
   else
     let r := (List.range pc.trxs.length).foldl ensureMid (pc.trxs, pc.nextMid)
     let pc' := { pc with trxs := r.1, nextMid := r.2 }
-    -- `setup_direct_rtp_offer_with_rtcp` for the first section (direct modes)
-    if pc.bindFails && pc.bindsInline then (pc', .err .internal) else (pc', .ok)
+    -- SDES-SRTP: gathering wait, then `setup_direct_rtp_offer_with_rtcp` for the first section
+    if pc.bindFails && pc.mode = .srtp then (pc', .err .internal) else (pc', .ok)
 
 /-- section → transceiver matching of `build_description(Answer)`; `none` = "No transceiver found" -/
 def answerOrder (ts : List Trx) : List Section → List Nat → List Nat → Option (List Nat)
   | [], _, acc => some acc.reverse
   | s :: rest, used, acc =>
     let found :=
-      if !s.mid.isEmpty then findIdx (fun i t => !used.contains i && t.mid = some s.mid) ts
+      if !s.mid.isEmpty then findIdx (fun i t => !used.contains i && t.kind = s.kind && t.mid = some s.mid) ts
       else findIdx (fun i t => !used.contains i && t.kind = s.kind) ts
     match found with
     | some i => answerOrder ts rest (i :: used) (i :: acc)
@@ -513,7 +537,7 @@ def trace : Pc → List Call → List Res
   | _, [] => []
   | pc, c :: cs => (step pc c).2 :: trace (step pc c).1 cs
 
-/-! ### the code before the two `fix:` commits (kept for the witness theorems only) -/
+/-! ### the code before the `fix:` commits (kept for the witness theorems about superseded code only) -/
 namespace Legacy
 
 def localExtract (pc : Pc) (d : Desc) : Pc :=
@@ -531,6 +555,16 @@ def setLocal (pc : Pc) (d : Desc) : Pc × Res :=
     | .error e => (pc1, .err e)
     | .ok s' => ({ pc1 with sig := s', loc := some d }, .ok)
 
+/-- the tail when the state had already been moved before it ran -/
+def remoteTail (pc4 : Pc) (d : Desc) : Pc × Res :=
+  if pc4.bindFails && pc4.mode = .srtp && d.sections.any (·.addr4) then (pc4, .err .internal) else
+  let pc5 := applyRemote pc4 d
+  let pc6 := { pc5 with rem := some d }
+  if pc6.bindFails && pc6.mode = .rtp && rtpConfigureBinds pc6.trxs d then (pc6, .err .internal) else
+  (pc6, .ok)
+
+/-- `set_remote_description` before all `fix:` commits: no early fingerprint check, mid counter before
+the state check, state moved before the fallible tail -/
 def setRemote (pc : Pc) (d : Desc) : Pc × Res :=
   match validateType d.ty with
   | some e => (pc, .err e)
@@ -548,8 +582,18 @@ def setRemote (pc : Pc) (d : Desc) : Pc × Res :=
   | .ok s' =>
   let pc3 := { pc2 with sig := s' }
   if pc.rem.isSome && !changed then ({ pc3 with rem := some d }, .ok) else
+  let pc3 := { pc3 with dtlsRole := deriveRole pc3 d }
   if fpChanged pc3 fp then (pc3, .err .invalidState) else
-  remoteTail { pc3 with remoteFp := fp } d
+  Legacy.remoteTail { pc3 with remoteFp := fp } d
+
+/-- `create_offer` before the round-2 `fix:`: mids first, then the bind -/
+def createOffer (pc : Pc) : Pc × Res :=
+  if pc.sig ≠ .stable then (pc, .err .invalidState)
+  else if pc.trxs.isEmpty then (pc, .err .invalidState)
+  else
+    let r := (List.range pc.trxs.length).foldl ensureMid (pc.trxs, pc.nextMid)
+    let pc' := { pc with trxs := r.1, nextMid := r.2 }
+    if pc.bindFails && pc.bindsInline then (pc', .err .internal) else (pc', .ok)
 
 end Legacy
 
